@@ -161,6 +161,10 @@ func H_C08_Process() {
 		e.Formatted[key] = []byte(data)
 	} else {
 		e.Formatted["unrelated"] = []byte(data)
+		if s.Format != "" {
+			// bytes for another format — the JSON one included — are no substitute for the configured format
+			e.Formatted[JSONFormat] = []byte(data)
+		}
 	}
 	out, err := s.Process(context.Background(), e)
 	tEnd := time.Now()
